@@ -14,15 +14,15 @@
 package main
 
 import (
-	"os"
-	"os/exec"
-	"runtime/debug"
 	"bytes"
 	"crypto/sha256"
 	"encoding/hex"
 	"fmt"
 	"math/rand"
+	"os"
+	"os/exec"
 	"regexp"
+	"runtime/debug"
 	"sort"
 	"strconv"
 	"strings"
@@ -210,6 +210,13 @@ func parseGraph(s string) graph {
 // unbounded recursion (fatal in Go, not recoverable) only kills this child.
 func probeMain(args []string) {
 	debug.SetMaxStack(48 << 20)
+	if args[0] == "pdf" {
+		api.DisableConfigDir()
+		b, _ := hex.DecodeString(args[1])
+		_, err := optimizeBytes(b, false)
+		fmt.Print("RESULT:", err)
+		return
+	}
 	g := parseGraph(args[0])
 	o1, _ := parseObj(strings.Fields(args[1]))
 	o2, _ := parseObj(strings.Fields(args[2]))
@@ -821,10 +828,9 @@ func fixedGraphs(r *vh.Run) {
 		31: types.Dict{"Type": types.Name("Font"), "FontName": types.Name("B+C")},
 		32: types.Dict{"Type": types.Name("Font"), "FontName": types.Name("C")},
 		33: types.Dict{"Type": types.Name("Font"), "Name": ref(34)}, 34: types.Name("Q+X"),
-		35: types.Array{types.Array{ref(35)}}, 36: types.Array{ref(35)},
 		24: types.Array{ref(24)}, 25: types.Array{ref(25)}, 26: types.Array{ref(27)}, 27: types.Array{ref(26), types.Integer(1)},
 	}
-	ids := []int{1, 3, 5, 7, 8, 10, 11, 12, 13, 14, 15, 16, 17, 18, 19, 20, 22, 23, 24, 25, 26, 27, 28, 29, 30, 31, 32, 33, 35, 36, 99}
+	ids := []int{1, 3, 5, 7, 8, 10, 11, 12, 13, 14, 15, 16, 17, 18, 19, 20, 22, 23, 24, 25, 26, 27, 28, 29, 30, 31, 32, 33, 99}
 	for _, a := range ids {
 		for _, b := range ids {
 			checkPair(r, g, ref(a), ref(b), nil, "fixed-ref")
@@ -837,6 +843,15 @@ func fixedGraphs(r *vh.Run) {
 			}
 		}
 	}
+	// a cycle that alternates between a direct object and a reference on either side: no pair
+	// is ever recorded (pairs are only recorded when both sides are references)
+	g2 := graph{1: types.Array{types.Array{ref(1)}}, 2: types.Array{ref(1)},
+		3: types.Dict{"X": types.Dict{"X": ref(3)}}, 4: types.Dict{"X": ref(3)}}
+	checkPair(r, g2, ref(1), ref(2), nil, "mixed-cycle")
+	checkPair(r, g2, ref(3), g2[4], nil, "mixed-cycle")
+	checkPair(r, g2, g2[4], g2[3], nil, "mixed-cycle")
+	checkPair(r, g2, ref(1), ref(1), nil, "mixed-cycle")
+	checkPair(r, g2, ref(3), g2[3], nil, "mixed-cycle")
 	for _, raw1 := range [][]byte{nil, {}, {1}, {1, 2}, {2, 1}} {
 		for _, raw2 := range [][]byte{nil, {}, {1}, {1, 2}, {1, 3}} {
 			contentDupCase(r, types.StreamDict{Dict: types.Dict{}, Raw: raw1}, types.StreamDict{Dict: types.Dict{"Filter": types.Name("ASCIIHexDecode")}, Raw: raw2})
@@ -909,7 +924,7 @@ func randomGraphs(r *vh.Run, count int) {
 
 type pdfb struct{ objs []string }
 
-func (b *pdfb) add(body string) int { b.objs = append(b.objs, body); return len(b.objs) }
+func (b *pdfb) add(body string) int     { b.objs = append(b.objs, body); return len(b.objs) }
 func (b *pdfb) set(nr int, body string) { b.objs[nr-1] = body }
 func (b *pdfb) stream(dict string, data []byte) int {
 	return b.add(fmt.Sprintf("<< %s /Length %d >>\nstream\n%s\nendstream", dict, len(data), data))
@@ -1344,6 +1359,48 @@ func docOracle(r *vh.Run, doc []byte, dupContent bool, kind string) {
 	r.OracleOK()
 }
 
+// two fonts that differ in nothing a reader can see; one reaches the cyclic Encoding object
+// through a reference, the other through a direct copy of its first level
+func genMixedCycleDoc() []byte {
+	b := &pdfb{}
+	cat := b.add("")
+	root := b.add("")
+	enc := b.add("")
+	b.set(enc, fmt.Sprintf("<< /X << /X %d 0 R >> >>", enc))
+	f1 := b.add(fmt.Sprintf("<< /Type /Font /Subtype /Type1 /BaseFont /Helvetica /Encoding %d 0 R >>", enc))
+	f2 := b.add(fmt.Sprintf("<< /Type /Font /Subtype /Type1 /BaseFont /Helvetica /Encoding << /X %d 0 R >> >>", enc))
+	c := b.stream("", []byte("BT /F1 12 Tf (a) Tj ET"))
+	p1 := b.add(fmt.Sprintf("<< /Type /Page /Parent %d 0 R /Resources << /Font << /F1 %d 0 R >> >> /Contents %d 0 R >>", root, f1, c))
+	p2 := b.add(fmt.Sprintf("<< /Type /Page /Parent %d 0 R /Resources << /Font << /F1 %d 0 R >> >> /Contents %d 0 R >>", root, f2, c))
+	b.set(root, fmt.Sprintf("<< /Type /Pages /Count 2 /Kids [%d 0 R %d 0 R] /MediaBox [0 0 612 792] >>", p1, p2))
+	b.set(cat, fmt.Sprintf("<< /Type /Catalog /Pages %d 0 R >>", root))
+	return b.bytes(cat)
+}
+
+func mixedCycleDocOracle(r *vh.Run) {
+	doc := genMixedCycleDoc()
+	if _, err := readCtx(doc); err != nil {
+		r.Count("doc:mixedcycle:invalid-input")
+		return
+	}
+	cmd := exec.Command(os.Args[0], "probe", "pdf", hex.EncodeToString(doc), "-")
+	var out, errb bytes.Buffer
+	cmd.Stdout, cmd.Stderr = &out, &errb
+	err := cmd.Run()
+	switch {
+	case err == nil && strings.Contains(out.String(), "RESULT:"):
+		r.Count("doc:mixedcycle:" + strings.SplitN(out.String()[strings.Index(out.String(), "RESULT:")+7:], ":", 2)[0])
+		r.OracleOK()
+	case strings.Contains(errb.String(), "stack overflow") || strings.Contains(errb.String(), "stack exceeds"):
+		r.Count("doc:mixedcycle:stack-overflow")
+		r.OracleFail("optimize-fatal-stack-overflow-equalobjects-mixed-cycle",
+			map[string]any{"pdf": hex.EncodeToString(doc), "optimizeDuplicateContentStreams": false},
+			"api.Optimize on a valid two-page document died with a Go stack overflow inside model.EqualObjects (child process)")
+	default:
+		r.Count("doc:mixedcycle:child-error")
+	}
+}
+
 func contentOf(fp string) string {
 	i := strings.Index(fp, "content=")
 	j := strings.Index(fp[i:], " ")
@@ -1368,6 +1425,7 @@ func main() {
 		doc, _ := genDoc(r.Rand)
 		docOracle(r, doc, r.Rand.Intn(2) == 0, "gen")
 	}
+	mixedCycleDocOracle(r)
 	for i := 0; i < 2; i++ {
 		docOracle(r, genRawTwinDoc(r.Rand), true, "rawtwin")
 		docOracle(r, genRawTwinDoc(r.Rand), false, "rawtwin")
